@@ -5,7 +5,8 @@
 (* SaveLoad_L0 (C14 / C15), Marker_L1!Struct, one script per transition.    *)
 EXTENDS Marker_L1, Json
 
-CONSTANTS MaxOps, MaxId, Emit
+CONSTANTS MaxOps, MaxId, Emit,
+          RetrMax    \* ids 0..RetrMax are retrieved directly (retrieve_entity called by the script)
 
 L0 == INSTANCE SaveLoad_L0
 
@@ -27,6 +28,7 @@ Ops ==
   \cup {[o |-> "setr", h |-> h, k |-> Pos(h), v |-> None, vk |-> <<>>] : h \in Live}
   \cup {[o |-> "setr", h |-> h, k |-> Pos(h), v |-> <<<<t>>>>, vk |-> <<Pos(t)>>] : h \in Live, t \in Live}
   \cup {[o |-> "amaintain"], [o |-> "save"]}
+  \cup {[o |-> "retrieve", m |-> m] : m \in {x \in 0..RetrMax : CanCreate(st) \/ (x \in DOMAIN st.map /\ HasMarker(st, st.map[x]))}}
   \cup (IF blob.ok /\ Needed(st, blob.d) <= Cardinality(Free(st)) THEN {[o |-> "load", recs |-> blob.d, own |-> TRUE]} ELSE {})
   \cup {[o |-> "load", recs |-> r, own |-> FALSE] : r \in {x \in SynthMenu : Needed(st, x) <= Cardinality(Free(st))}}
 
@@ -41,7 +43,8 @@ MCNext ==
            saved == op.o = "save" /\ \A h \in Marked(st) : Convertible(st, h)
        IN /\ (op.o # "save" \/ saved)
           /\ st' = r.st /\ S' = z.S /\ viol' = viol \cup z.f
-          /\ created' = IF op.o = "create" THEN Append(created, r.ev.h) ELSE created
+          /\ created' = IF op.o = "create" THEN Append(created, r.ev.h)
+                         ELSE IF op.o = "retrieve" THEN Append(created, r.ev.res) ELSE created
           /\ blob' = IF saved THEN [ok |-> TRUE, d |-> r.ev.data] ELSE blob
           /\ hist' = Append(hist, op)
           /\ (Emit => PrintT(<<"SCRIPT", ToJson(Append(hist, op))>>))
